@@ -206,6 +206,12 @@ class Session:
             for k, v in op.get("set", {}).items():
                 self.dev.state[k] = v
             w.fire("device_side_change")
+        elif kind == "dev_partial":
+            # the device starts an unsolicited report and sends only its first k bytes for now
+            for conn in w.net.conns:
+                if conn.open:
+                    self.dev.send_partial_unsolicited(conn, op.get("k", 10))
+            await asyncio.sleep(0.01)
         elif kind == "dev_close":
             for conn in w.net.conns:
                 if conn.open:
